@@ -77,13 +77,13 @@ func Harness_C14_leak_forms() {
 	access := verifPick("access", 0, 2)
 	w := dataflow.VerifBuildShareProgram(nil, nil, leak, 0, access, 0)
 	if e, ok := c14Analyze(w); ok {
-		c14CheckRacy(e, w, "KF-C14-deferred-call-ignored", leak == 6)
+		c14CheckRacy(e, w, "", false)
 	}
 }
 
 // the address travels through one transport between the allocation and the leaked / accessed values
 func Harness_C14_leak_through_transport() {
-	t := verifPick("transport", 0, 23)
+	t := verifPick("transport", 0, 24)
 	variant := verifPick("variant", 0, 1)
 	leak := verifPick("leak", 0, 1) * 5 // go statement in main / inside a summarized callee
 	leakAt := verifPick("leakAt", 0, 1)
@@ -94,7 +94,7 @@ func Harness_C14_leak_through_transport() {
 	w := dataflow.VerifBuildShareProgram([]int{t}, []int{variant}, leak, leakAt, 0, accessAt)
 	if e, ok := c14Analyze(w); ok {
 		// transport 22 reads a cell that is written by a deferred call: same root cause as the recorded finding
-		c14CheckRacy(e, w, "KF-C14-deferred-call-ignored", t == 22)
+		c14CheckRacy(e, w, "", false)
 	}
 }
 
